@@ -544,4 +544,7 @@ func checkC18(c *Ctx, r *Report) {
 			}
 		})
 	}
+
+	// E. and no transmission happens outside the accounted operations (shared with C09, C04, C10, C13)
+	checkSendSites(c, r)
 }
